@@ -156,6 +156,8 @@ def make_sed(pkg, n, unit=None):
         wav = np.array(_ord(list(reversed(pkg['wav'])), sd['order']))
         s.wav = wav * u.micron
         s.nu = s.wav.to(u.Hz, equivalencies=u.spectral())
+        if pkg.get('wav_dtype') == 'float32':       # the spectral columns in single precision, as the package-format page prescribes ('E')
+            s.wav, s.nu = s.wav.astype(np.float32), s.nu.astype(np.float32)
     else:
         nu = np.array(_ord(sd.get('nu', pkg['nu']), sd['order']))     # per-SED grid (per-file packages only) or the shared one
         s.nu = nu * u.Hz
